@@ -277,3 +277,30 @@ void harness_limit(void)
 	if (accepted < 5) REACH("refused_at_limit");
 	WITNESS_END();
 }
+
+/* ================================================================== shutdown: destroy_all_peers() closes every peer; everything is released */
+static void closing_close(struct peer *p) { closes_requested++; free_peer_resources(p); }
+void harness_shutdown(void)
+{
+	__CPROVER_assume(element_hashtable_create() == 0);
+	long baseline = verif_live_blocks;
+	mkpeer(&O, true); mkpeer(&A, true); mkpeer(&C, true);
+	O.close = closing_close; A.close = closing_close; C.close = closing_close;
+	int v = (int)nd_range(0, 999);
+	scn_build_begin();
+	cJSON *add = mkreq("add", 1, path_params("s", 1));
+	cJSON *fetch = mkreq("fetch", 2, fetch_params("fc"));
+	scn_build_end();
+	__CPROVER_assume(dispatch(&O, add) == 0);
+	__CPROVER_assume(dispatch(&C, fetch) == 0);
+	reset_log();
+	int ka = do_set(&A, 7, v);
+	__CPROVER_assume(ka >= 0);
+	destroy_all_peers();
+	CHECK(closes_requested == 3, "C07.shutdown_closes_every_peer_once");
+	CHECK(get_number_of_peers() == 0 && list_empty(get_peer_list()), "C07.no_peer_left_after_shutdown");
+	CHECK(element_table_get("s") == 0, "C07.no_element_left_after_shutdown");
+	CHECK(timers_alive() == 0, "C07.no_timer_left_after_shutdown");
+	CHECK(verif_live_blocks == baseline, "C07.accounting_back_at_baseline_after_shutdown");
+	WITNESS_END();
+}
